@@ -1,1 +1,113 @@
-fn main(){}
+use serde_json::Value;
+use vh::engine::*;
+
+fn config_name() -> String {
+    let mut v: Vec<&str> = Vec::new();
+    if cfg!(feature = "w32") { v.push("w32"); }
+    if cfg!(feature = "m51") { v.push("m51"); }
+    if cfg!(feature = "zz32") { v.push("zz32"); }
+    if cfg!(feature = "clmul") { v.push("clmul"); }
+    if cfg!(target_feature = "avx2") { v.push("avx2"); }
+    if v.is_empty() { "base".into() } else { v.join("+") }
+}
+
+fn arg(args: &[String], name: &str) -> Option<String> {
+    args.iter().position(|a| a == name).and_then(|i| args.get(i + 1).cloned())
+}
+
+fn main() {
+    let args: Vec<String> = std::env::args().collect();
+    if args.len() < 2 {
+        eprintln!("usage: vrun run <ID> --tier quick|thorough [--seed N] [--out FILE] | replay <file> | list | selftest");
+        std::process::exit(2);
+    }
+    install_quiet_panic_hook();
+    let root = std::env::var("VERIF_ROOT").unwrap_or_else(|_| "/verif".into());
+    match args[1].as_str() {
+        "list" => {
+            for p in vh::props::all() {
+                println!("{}", p.id());
+            }
+        }
+        "config" => println!("{}", config_name()),
+        "run" => {
+            let id = args.get(2).expect("property id");
+            let Some(p) = vh::props::by_id(id) else {
+                eprintln!("unknown property {id}");
+                std::process::exit(2);
+            };
+            let tier = match arg(&args, "--tier").as_deref() {
+                Some("thorough") => Tier::Thorough,
+                _ => Tier::Quick,
+            };
+            let seed: u64 = arg(&args, "--seed").or_else(|| std::env::var("VERIF_SEED").ok()).and_then(|s| s.parse().ok()).unwrap_or(1);
+            let threads: usize = arg(&args, "--threads").and_then(|s| s.parse().ok()).unwrap_or_else(|| std::thread::available_parallelism().map(|n| n.get()).unwrap_or(4));
+            let cfg = RunCfg {
+                tier,
+                seed,
+                threads,
+                config_name: arg(&args, "--config").unwrap_or_else(config_name),
+                known: load_known(&format!("{root}/known_findings.json")),
+                replay_dir: arg(&args, "--replay-dir").unwrap_or_else(|| format!("{root}/replays")),
+                scale: arg(&args, "--scale").and_then(|s| s.parse().ok()).unwrap_or(1.0),
+                only_class: arg(&args, "--class"),
+            };
+            let res = p.run(&cfg);
+            let txt = serde_json::to_string_pretty(&res).unwrap();
+            if let Some(out) = arg(&args, "--out") {
+                std::fs::write(&out, &txt).expect("write result");
+            } else {
+                println!("{txt}");
+            }
+            for k in res["known_findings_hit"].as_array().unwrap() {
+                println!("KNOWN-FINDING: property={} {} [{} x{} in config {}]", id, k["what"].as_str().unwrap_or(""), k["signature"].as_str().unwrap_or(""), k["count"], cfg.config_name);
+            }
+            let viol = res["violations"].as_array().unwrap();
+            for v in viol {
+                println!("VIOLATION property={} replay={}", id, v["replay"].as_str().unwrap_or("?"));
+                eprintln!("  signature: {}\n  message: {}", v["signature"].as_str().unwrap_or(""), v["message"].as_str().unwrap_or(""));
+            }
+            if !viol.is_empty() {
+                std::process::exit(1);
+            }
+            let unreached = res["unreached_classes"].as_array().unwrap();
+            if !unreached.is_empty() {
+                eprintln!("harness error: classes not reached: {:?}", unreached);
+                std::process::exit(2);
+            }
+        }
+        "replay" => {
+            let path = args.get(2).expect("replay file");
+            let txt = std::fs::read_to_string(path).expect("read replay file");
+            let v: Value = serde_json::from_str(&txt).expect("replay JSON");
+            let id = v["property"].as_str().expect("property field");
+            let Some(p) = vh::props::by_id(id) else {
+                eprintln!("unknown property {id}");
+                std::process::exit(2);
+            };
+            match p.replay(&v) {
+                Ok(o) => match o.verdict {
+                    Verdict::Pass => println!("replay: property {id} holds on this case"),
+                    Verdict::Fail { sig, msg } => {
+                        let known = load_known(&format!("{root}/known_findings.json"));
+                        if let Some(k) = known.iter().find(|k| k.property == id && k.status == "known" && k.signature == sig) {
+                            println!("KNOWN-FINDING: property={} {} [{}]", id, k.what, sig);
+                        } else {
+                            println!("VIOLATION property={} replay={}", id, path);
+                            eprintln!("  signature: {sig}\n  message: {msg}");
+                            std::process::exit(1);
+                        }
+                    }
+                },
+                Err(e) => {
+                    eprintln!("replay error: {e}");
+                    std::process::exit(2);
+                }
+            }
+        }
+        other => {
+            eprintln!("unknown command {other}");
+            std::process::exit(2);
+        }
+    }
+}
